@@ -23,6 +23,7 @@ import (
 	"time"
 
 	"github.com/relex/gotils/logger"
+	"github.com/relex/slog-agent/defs"
 	"github.com/relex/slog-agent/transform"
 
 	"verifharness/internal/vkit"
@@ -329,6 +330,14 @@ func childBatch(c *vkit.Ctx, op Opaque) {
 	lo, _ := strconv.Atoi(c.Arg("lo"))
 	hi, _ := strconv.Atoi(c.Arg("hi"))
 	single := c.Arg("single") == "1"
+	// Every second batch of programs (and every confirmation / replay of a single case) runs with a message-size limit of 24
+	// bytes: addFields pre-sizes its expansion buffer with defs.InputLogMaxMessageBytes, and an expansion may legitimately be
+	// longer than that ("task=$task $log" on a message at the limit) - at the default of 1 MiB no generated value gets there
+	// (seeded c15-s8 filled the pre-sized buffer with copy and cut longer expansions off silently).
+	if single || (hi > lo && (lo/(hi-lo))%2 == 1) {
+		defs.InputLogMaxMessageBytes = 24
+		c.Event("batches_with_a_24_byte_expansion_buffer", 1)
+	}
 	minimiseLeft := 6
 	for i := lo; i < hi; i++ {
 		if !single {
@@ -341,6 +350,7 @@ func childBatch(c *vkit.Ctx, op Opaque) {
 
 // replay re-runs the witness of a replay file (./check C15 quick --replay <file>) on the current tree.
 func replay(path string, op Opaque) {
+	defs.InputLogMaxMessageBytes = 24
 	b, err := os.ReadFile(path)
 	if err != nil {
 		fmt.Println("REPLAY-ERROR", err)
